@@ -84,22 +84,24 @@ def space_sweep(ctx, types, colors, shape, view, idx):
     vh, vw = view
     # on purpose the *same* list objects are handed to both spaces (and kept by the harness): nobody may modify them
     types_given, colors_given = list(types), list(colors)
-    ss = StateSpace(Shape(h, w), types_given, colors_given)
+    # Hidden exists in observations only (a state space naming it is refused with ValueError)
+    ss = StateSpace(Shape(h, w), types_given if Hidden not in types else [t for t in types if t is not Hidden], colors_given)
     os_ = ObservationSpace(Shape(vh, vw), types_given, colors_given)
-    objs = repgen.member_objects(types, colors)
+    objs = repgen.dedup(repgen.member_objects([t for t in types if t is not Hidden], colors))
     obs_objs = objs + [Hidden()]
-    helds = objs + [NoneGridObject()]
+    helds = repgen.dedup(objs + [NoneGridObject()])
     rng = gen.rng_for('C15', ctx.seed, idx)
     spec = {'types': [t.__name__ for t in types], 'colors': [c.name for c in colors], 'shape': [h, w], 'view': [vh, vw]}
     ctx.hit('spaces')
     for name in repgen.NAMES:
-        ok, srep = call_real(make_state_representation, name, ss)
+        # a state space without any declared type has no member (every cell holds an object): nothing is demanded of it
+        ok, srep = call_real(make_state_representation, name, ss) if objs else (True, None)
         ok2, orep = call_real(make_observation_representation, name, os_)
         if not ok or not ok2:
             bad = srep if not ok else orep
             ctx.violation('bounds', 'make_representation.raises', f'{spec} {name}: {describe_exc(bad)}', 'rep_case', dict(spec, rep=name))
             continue
-        sgym = gv_gym.outer_space_to_gym_space(srep.space)
+        sgym = gv_gym.outer_space_to_gym_space(srep.space) if srep is not None else None
         ogym = gv_gym.outer_space_to_gym_space(orep.space)
         # every object in every cell class, every pose class, every held item
         poses = [(y, x, o) for (y, x) in repgen.cell_classes(h, w) for o in gen.ORIENTATIONS]
